@@ -315,6 +315,22 @@ def run_family(pid: str, tier: str, seed: int, replay=None) -> int:
                     scs.append({"arch": arch, "fold": K % 2 == 0, "seed": K * 31, "alive": {"1": [1, 3]},
                                 "tm": {"1": {"b": [10] * K, "g": [10] * glen(K)}},
                                 "props": _props(pid), "src": "non-causal-open"})
+    if pid in ("C09", "C01", "C04"):
+        # a ONE-channel tensor flattened into the features of a linear layer, spelled x.squeeze(1) (archgen: flat at an even
+        # position) and nn.Flatten (odd position): alive x T features either way
+        for nodes in ([{"op": "conv", "ins": [0], "out": 1, "k": 3, "causal": True}, {"op": "flat", "ins": [1]},
+                       {"op": "lin", "ins": [2], "out": 3}],
+                      [{"op": "conv", "ins": [0], "out": 1, "k": 2, "causal": True}, {"op": "relu", "ins": [1]}, {"op": "flat", "ins": [2]},
+                       {"op": "lin", "ins": [3], "out": 2}],
+                      [{"op": "conv", "ins": [0], "out": 3, "k": 3, "causal": True}, {"op": "conv", "ins": [1], "out": 1, "k": 1, "causal": True},
+                       {"op": "relu", "ins": [2]}, {"op": "flat", "ins": [3]}, {"op": "lin", "ins": [4], "out": 2}]):
+            from ..archgen import norm_arch as _na
+            arch = _na({"dim": 1, "c0": 2, "sp": 6, "nodes": nodes})
+            for al in ([1, 2, 3], [3], [2, 3]):
+                alive = {str(i): ([1] if nd["out"] == 1 else [c for c in al if c <= nd["out"]] or [nd["out"]])
+                         for i, nd in enumerate(arch["nodes"], start=1) if nd["op"] in ("conv", "lin")}
+                scs.append({"arch": arch, "fold": False, "seed": 17 + len(scs), "alive": alive, "tm": {},
+                            "props": _props(pid), "src": "one-channel-flatten", "costs": (COSTSETS[0] if pid == "C04" else [])})
     gcfg = "FeatGraphMC_quick" if (pid == "C09") else "FeatGraphMC_tiny"
     if pid == "C09" and not quick:
         R.design("FeatGraphMC", "FeatGraphMC_thorough", workers=16, timeout=7200)
